@@ -33,8 +33,10 @@ type req struct {
 
 // texts: valid documents, a layout variant with another digest, the empty text, an invalid one
 // (round 2, after seeded change C18-4) and white-space-only texts, which are texts, not absent texts
-var texts = []string{"{a}", "{b}", " {a}", "{a b}", "", "garbage(", " ", "\n\t "}
-var valid = map[string]bool{"{a}": true, "{b}": true, " {a}": true, "{a b}": true}
+// (round 4, after seeded change C18-11) a text with a leading byte order mark: a valid document whose
+// digest is the digest of ALL its bytes
+var texts = []string{"{a}", "{b}", " {a}", "{a b}", "", "garbage(", " ", "\n\t ", "\ufeff{a}"}
+var valid = map[string]bool{"{a}": true, "{b}": true, " {a}": true, "{a b}": true, "\ufeff{a}": true}
 
 func sha(t string) []byte { h := sha256.Sum256([]byte(t)); return h[:] }
 func hexOf(t string) string { return hex.EncodeToString(sha(t)) }
@@ -86,17 +88,40 @@ func (r req) sexp() sexp.Node {
 
 // ---- recording storage: a plain map, "" when absent ----
 
+// With writeBehind (round 4, after seeded change C18-10) the storage is still a map, but one that
+// applies its writes late: PersistQuery keeps the (query, hash slice) pair as handed over and the
+// map is brought up to date at the next lookup - a write-behind cache.  On code that hands the
+// storage a digest of its own, this is indistinguishable from the eager map.
 type storage struct {
-	m     map[string]string
-	calls []sexp.Node
+	m           map[string]string
+	calls       []sexp.Node
+	writeBehind bool
+	pending     []pendingPut
+}
+
+type pendingPut struct {
+	query string
+	hash  []byte
+}
+
+func (s *storage) flush() {
+	for _, p := range s.pending {
+		s.m[string(p.hash)] = p.query
+	}
+	s.pending = nil
 }
 
 func (s *storage) GetPersistedQuery(ctx context.Context, hash []byte) string {
+	s.flush()
 	s.calls = append(s.calls, sexp.T("get", sexp.Bytes(hash)))
 	return s.m[string(hash)]
 }
 func (s *storage) PersistQuery(ctx context.Context, query string, hash []byte) {
 	s.calls = append(s.calls, sexp.T("put", sexp.Str(query), sexp.Bytes(hash)))
+	if s.writeBehind {
+		s.pending = append(s.pending, pendingPut{query, hash})
+		return
+	}
 	s.m[string(hash)] = query
 }
 func (s *storage) take() sexp.Node { c := s.calls; s.calls = nil; return sexp.L(c...) }
@@ -112,9 +137,9 @@ func (r req) extKey() string { b, _ := json.Marshal(r.extensions()); return fmt.
 // C18-9) requests of one history whose extensions have the same content hand the SAME map object to the
 // function, as an application re-sending a prepared request would; the function must not change its
 // caller's map (checked after every call against a copy: action "unexpected" if it did).
-func runDirect(hist []req, shared bool) []sexp.Node {
+func runDirect(hist []req, shared bool, writeBehind bool) []sexp.Node {
 	maps := map[string]map[string]interface{}{}
-	st := &storage{m: map[string]string{}}
+	st := &storage{m: map[string]string{}, writeBehind: writeBehind}
 	var executed *string
 	f := apifu.PersistedQueryExtension(st, func(r *graphql.Request) *graphql.Response {
 		q := r.Query
@@ -133,12 +158,17 @@ func runDirect(hist []req, shared bool) []sexp.Node {
 			}
 		}
 		before, _ := json.Marshal(ext)
-		resp := f(&graphql.Request{Context: context.Background(), Query: r.Query, Extensions: ext})
+		in := &graphql.Request{Context: context.Background(), Query: r.Query, Extensions: ext}
+		resp := f(in)
 		after, _ := json.Marshal(ext)
 		var a sexp.Node
 		switch {
 		case !bytes.Equal(before, after):
 			a = sexp.T("unexpected") // the caller's extension map was modified
+		case in.Query != r.Query || in.OperationName != "" || in.VariableValues != nil:
+			// (round 4, after seeded change C18-12) the caller's request object was modified: a
+			// caller that re-sends it with another hash would no longer send a hash-only request
+			a = sexp.T("unexpected")
 		case executed != nil:
 			a = sexp.T("exec", sexp.Str(*executed))
 		case len(resp.Errors) == 1 && resp.Errors[0].Message == "PersistedQueryNotFound":
@@ -239,9 +269,11 @@ func caseOf(route string, hist []req) sexp.Node {
 	var o []sexp.Node
 	switch route {
 	case "direct":
-		o = runDirect(hist, false)
+		o = runDirect(hist, false, false)
 	case "direct-shared":
-		o = runDirect(hist, true)
+		o = runDirect(hist, true, false)
+	case "direct-wb":
+		o = runDirect(hist, false, true)
 	case "post":
 		o = runHTTP(hist, false, false)
 	case "post-url":
@@ -270,6 +302,8 @@ func alphabet() []req {
 	a = append(a, req{ExtKind: 3, Version: 1.0, Hash: hexOf("")})
 	a = append(a, req{Query: " ", ExtKind: 3, Version: 1.0, Hash: hexOf("{a}")}) // white-space-only text + hash of a registered document
 	a = append(a, req{Query: " ", ExtKind: 3, Version: 1.0, Hash: hexOf(" ")})
+	a = append(a, req{Query: "\ufeff{a}", ExtKind: 3, Version: 1.0, Hash: hexOf("\ufeff{a}")}) // text with a leading BOM + its own digest
+	a = append(a, req{ExtKind: 3, Version: 1.0, Hash: hexOf("\ufeff{a}")})
 	a = append(a, req{ExtKind: 3, Version: 1.0})
 	a = append(a, req{Query: "{a}", ExtKind: 2})
 	a = append(a, req{ExtKind: 2})
@@ -291,7 +325,7 @@ func randomReq(r *rng.R) req {
 
 func main() {
 	hx.Main(func(h *hx.H) {
-		routes := []string{"direct", "post", "get", "direct-shared", "post-url"}
+		routes := []string{"direct", "post", "get", "direct-shared", "post-url", "direct-wb"}
 		alpha := alphabet()
 		maxLen := 2
 		if h.Thorough() {
@@ -303,7 +337,7 @@ func main() {
 			if len(prefix) > 0 {
 				hist := append([]req(nil), prefix...)
 				for _, route := range routes {
-					if route != "direct" && route != "direct-shared" && len(hist) > 2 {
+					if route != "direct" && route != "direct-shared" && route != "direct-wb" && len(hist) > 2 {
 						continue
 					}
 					route := route
